@@ -227,6 +227,7 @@ def staticAlloc (mems : List Mem) (reqs : List Req) : Except Err (List Placed) :
 inductive Kind where
   | ucast    -- builtin.unrealized_conversion_cast
   | view     -- memref.subview / cast / memory_space_cast / reinterpret_cast, snax.layout_cast
+  | sel      -- arith.select between memrefs (double buffering): its result IS one of the buffers, the code does not follow it
   | other
 deriving DecidableEq, Repr, Inhabited
 
@@ -603,6 +604,13 @@ inductive Alias (fl : List (Node × Nat)) (r : Nat) : Nat → Prop where
   | base : Alias fl r r
   | step {n : Node} {t w v : Nat} : (n, t) ∈ fl → follows .fixed n = true → w ∈ n.ops →
       Alias fl r w → v ∈ n.res → Alias fl r v
+
+/-- `v` is the buffer `r`, a cast / view of it, or the result of an `arith.select` that may pick it
+(what double buffering produces): the property's notion of "the buffer is still used" at full strength -/
+inductive AliasS (fl : List (Node × Nat)) (r : Nat) : Nat → Prop where
+  | base : AliasS fl r r
+  | step {n : Node} {t w v : Nat} : (n, t) ∈ fl → (follows .fixed n = true ∨ n.kind = .sel) → w ∈ n.ops →
+      AliasS fl r w → v ∈ n.res → AliasS fl r v
 
 /-- the buffer `r`, or a view or cast of it, is used by an operation at or below top-level index ≥ `t` -/
 def UsedAtOrAfter (p : Prog) (r t : Nat) : Prop :=
